@@ -71,7 +71,7 @@ def base_script(loop, rng, variant):
     return [(t0 + 0.0, t0 + 3.0, "blackout", 0)]
 
 
-def crash_run(variant, at_iteration, action, total=None):
+def crash_run(variant, at_iteration, action, total=None, suspend=False):
     """One run of the base scenario; `action` ('reset' | 'exit' | None) is started at event-loop pass number `at_iteration`."""
     import random
     rng = random.Random(7)
@@ -81,7 +81,7 @@ def crash_run(variant, at_iteration, action, total=None):
     async def main(loop):
         remove = install_tracker(loop, tracker)
         try:
-            st = fullstack.Stack(loop, SNAP, base_script(loop, rng, variant), rng, latency=0.02)
+            st = fullstack.Stack(loop, SNAP, base_script(loop, rng, variant), rng, latency=0.02, suspend=(lambda ev: 0) if suspend else None)
             stack_ref[0] = st
             fired = {}
             obs = []
@@ -163,7 +163,7 @@ def crash_run(variant, at_iteration, action, total=None):
     return vloop.run(main)
 
 
-def cycles_run(seed, ncycles):
+def cycles_run(seed, ncycles, suspend=False):
     """consecutive reconnect cycles: resets at random moments; ledger sampled all along"""
     import random
     rng = random.Random(seed)
@@ -173,12 +173,16 @@ def cycles_run(seed, ncycles):
     async def main(loop):
         remove = install_tracker(loop, tracker)
         try:
-            st = fullstack.Stack(loop, SNAPS[seed % 2], fullstack.fault_plan(rng, loop.time(), 60.0 * ncycles / 6, kinds=("healthy", "healthy", "lossy", "blackout", "rferr")), rng)
+            srng = random.Random(seed + 5)
+            st = fullstack.Stack(loop, SNAPS[seed % 2], fullstack.fault_plan(rng, loop.time(), 60.0 * ncycles / 6, kinds=("healthy", "healthy", "lossy", "blackout", "rferr")), rng,
+                                 suspend=(lambda ev: srng.choice([None, 0, 0.02])) if suspend else None)
             await st.man.__aenter__()
             obs, mx_eps, mx_tasks = [], 0, 0
             for c in range(ncycles):
-                await asyncio.sleep(rng.choice([0.3, 2.0, 4.2, 4.4, 5.0, 9.0, 14.0]))
-                if rng.random() < 0.8:
+                await asyncio.sleep(rng.choice([0.3, 2.0, 4.2, 4.4, 5.0, 9.0, 14.0, 70.0]))
+                if suspend and rng.random() < 0.5:
+                    pass                   # no outside reset this cycle: leave room for the resets the connection's own tasks start (ping answered in an error state)
+                elif rng.random() < 0.8:
                     await st.man.async_reset()
                 else:
                     await st.man.async_set_spa_info(None, session.SPA_ID.decode(), "Spa")
@@ -220,13 +224,15 @@ def run(ctx):
         # the handshake happens in a short burst of passes after discovery (virtual second 4..5): take them all
         if not ctx.thorough:
             ks |= set(range(max(1, int(total * 0.15)), int(total * 0.26), 2))
-        for action in ("reset", "exit"):
-            for k in sorted(ks):
-                r = crash_run(variant, k, action)
+        for action in ("reset", "exit", "reset+suspending-client", "exit+suspending-client"):
+            susp = action.endswith("client")
+            action = action.split("+")[0]
+            for k in sorted(ks if not susp else {x for x in ks if x % 3 == 0}):
+                r = crash_run(variant, k, action, suspend=susp)
                 if not r["fired"]:
                     continue
-                ctx.case((variant, action, k), nontrivial=r["state_at"] not in ("IDLE", "CONNECTED"))
-                ctx.count("crash:%s:%s" % (action, r["state_at"]))
+                ctx.case((variant, action, k, susp), nontrivial=r["state_at"] not in ("IDLE", "CONNECTED"))
+                ctx.count("crash:%s:%s%s" % (action, r["state_at"], ":suspending_client" if susp else ""))
                 replay = {"variant": variant, "action": action, "event_loop_pass": k, "virtual_time": round(r["t"], 3), "state_at_crash": r["state_at"]}
                 if r["action_done"] is not True:
                     ctx.fail("ledger:%s_raised:%s" % (action, r["state_at"]), "%s at pass %d (%s) did not complete: %s" % (action, k, r["state_at"], r["action_done"]), replay)
@@ -248,8 +254,8 @@ def run(ctx):
                 obs_all += r["obs"]
                 if len(meta) < 6 and r["state_at"] in ("CONNECTING", "LOCATING_SPAS", "ERROR_RF_FAULT"):
                     meta.append(dict(replay, ledger_after=r["obs"][-1:] and str(r["obs"][-1]), healed_after_s=r.get("healed")))
-    for seed in range(6 if ctx.thorough else 2):
-        obs, mx_eps, mx_tasks, total_eps = cycles_run(ctx.seed * 10 + seed, 60 if ctx.thorough else 25)
+    for seed in range(8 if ctx.thorough else 4):
+        obs, mx_eps, mx_tasks, total_eps = cycles_run(ctx.seed * 10 + seed, 60 if ctx.thorough else 25, suspend=(seed % 2 == 1))
         obs_all += obs
         ctx.case(("cycles", seed), nontrivial=True)
         ctx.count("reconnect_cycles", len(obs) - 1)
